@@ -9,14 +9,14 @@ tvars == <<vars, l>>
 Ev(name) == l <= Len(T) /\ T[l].e = name /\ l' = l + 1
 R == T[l]
 Tag(f, k) == f \o ToString(k)
-TReset == /\ Ev("Reset") /\ now' = 5 /\ mtime' = [f \in Files |-> CASE f = "A" -> 1 [] f = "B" -> 2 [] f = "H" -> 3 [] f = "S" -> 4]
+TReset == /\ Ev("Reset") /\ now' = 5 /\ mtime' = [f \in Files |-> CASE f = "A" -> 1 [] f = "B" -> 2 [] f = "H" -> 3 [] f = "S" -> 4 [] f = "G" -> 0]
           /\ ver' = [f \in Files |-> 1] /\ bin' = [p \in Progs |-> NoBin] /\ bootS' = 1 /\ saveB' = R.saveB /\ stale' = FALSE
 TEdit == Ev("Edit") /\ Edit(R.f)
 TTouch == Ev("Touch") /\ Touch(R.f)
 TRestart == Ev("Restart") /\ Restart
 TOld == Ev("OldFormat") /\ OldFormat(R.p)
-Expected(p) == IF p = "A" THEN <<Tag("A", ver["A"]), Tag("H", ver["H"]), Tag("B", ver["B"]), Tag("S", bootS)>>
-               ELSE <<Tag("B", ver["B"])>>
+Expected(p) == IF p = "A" THEN <<Tag("A", ver["A"]), Tag("H", ver["H"]), Tag("B", ver["B"]), Tag("G", ver["G"]), Tag("S", bootS)>>
+               ELSE <<Tag("B", ver["B"]), Tag("G", ver["G"])>>
 TLoad == /\ Ev("Load")
          /\ Load(R.p, [q \in Progs |-> IF q = "A" THEN R.usedA ELSE R.usedB])
          /\ R.tags = Expected(R.p)            \* what the loaded program says = the current versions
